@@ -9,6 +9,7 @@ import OPModel.Drive.C20
 import OPModel.Drive.C03
 import OPModel.Drive.C02
 import OPModel.Drive.C16
+import OPModel.Drive.C17
 
 open OP
 
@@ -25,6 +26,8 @@ def handle (line : String) : String :=
   | "site" :: args => Drive.site args
   | "sheets" :: args => Drive.sheets args
   | "wrapper" :: args => Drive.wrapper args
+  | "clean" :: args => Drive.clean args
+  | "rdp" :: args => Drive.rdpOp args
   | "pinch" :: args => Drive.pinch args
   | "pincht" :: args => Drive.pincht args
   | _ => "bad-op"
